@@ -1,6 +1,8 @@
 package schedsim
 
 import (
+	"crypto/sha256"
+	"encoding/hex"
 	"encoding/json"
 	"fmt"
 	"os"
@@ -185,7 +187,9 @@ type harnessJob struct {
 	Report   string           `json:"report"`
 }
 
-func (b *Build) exec(spec *Spec, bin string) *RunResult {
+func (b *Build) exec(spec *Spec, bin string) *RunResult { return b.execEnv(spec, bin, childEnv) }
+
+func (b *Build) execEnv(spec *Spec, bin string, procEnv []string) *RunResult {
 	rd := b.NewRunDir()
 	rr := &RunResult{RunDir: rd}
 	job := harnessJob{WorkDir: filepath.Join(rd, "work"), Report: filepath.Join(rd, "report.json")}
@@ -222,7 +226,7 @@ func (b *Build) exec(spec *Spec, bin string) *RunResult {
 	jp := filepath.Join(rd, "job.json")
 	data, _ := json.Marshal(job)
 	os.WriteFile(jp, data, 0644)
-	pr := core.RunProc(RunTimeout*time.Duration(len(spec.Units)), rd, childEnv, nil, bin, jp)
+	pr := core.RunProc(RunTimeout*time.Duration(len(spec.Units)), rd, procEnv, nil, bin, jp)
 	rr.ProcExit = pr.ExitCode
 	rr.ProcSignal = pr.Signal
 	rr.TimedOut = pr.TimedOut
@@ -253,6 +257,11 @@ func (rr *RunResult) Cleanup() {
 // SnapFile reads a file of unit i's snapshot (e.g. "out/gen/p_main.ssa").
 func (rr *RunResult) SnapFile(i int, name string) ([]byte, error) {
 	return os.ReadFile(filepath.Join(rr.UnitDir(i), "snap", name))
+}
+
+func shaHex(data []byte) string {
+	h := sha256.Sum256(data)
+	return hex.EncodeToString(h[:])
 }
 
 var ansiRe = regexp.MustCompile(`\x1b\[[0-9;]*[A-Za-z]`)
